@@ -142,6 +142,11 @@ func runHistory(h History, w *bufio.Writer) int {
 			case <-time.After(20 * time.Second):
 				res.Obs = map[string]interface{}{"observe": "HANG"}
 				emit(w, res)
+				if os.Getenv("VERIF_DUMP") != "" {
+					buf := make([]byte, 1<<16)
+					n := runtime.Stack(buf, true)
+					os.Stderr.Write(buf[:n])
+				}
 				return 3
 			}
 		}
